@@ -25,6 +25,49 @@ CauseC04(r, in) == LET ir == PlanTop(r.cfg, r.s, r.t) IN
                    IF ~IsFail(ir) /\ HasValptrShare(ir) /\ ~IsPanic(EvalTop(ir, in)) /\ ~ShareOK(r.cfg, r.s, r.t, EvalTop(ir, in))
                    THEN "address-of-uncopied-source-position" ELSE "unexplained"
 
+\* C11: does the pair contain a pointer asymmetry (T -> *U or *T -> U) at some position?
+RECURSIVE PtrAsym(_,_)
+PtrAsym(s_, t_) ==
+  IF IsPtr(s_) # IsPtr(t_) THEN TRUE
+  ELSE IF IsPtr(s_) /\ IsPtr(t_) THEN PtrAsym(Elem(s_), Elem(t_))
+  ELSE IF IsList(s_) /\ IsList(t_) THEN PtrAsym(Elem(s_), Elem(t_))
+  ELSE IF IsMap(s_) /\ IsMap(t_) THEN PtrAsym(KeyT(s_), KeyT(t_)) \/ PtrAsym(Elem(s_), Elem(t_))
+  ELSE IF IsStruct(s_) /\ IsStruct(t_) /\ Len(Fields(s_)) = 1 /\ Len(Fields(t_)) = 1 THEN PtrAsym(Fields(s_)[1].t, Fields(t_)[1].t)
+  ELSE FALSE
+AsC11(f, r) == {<<"C11", "pointer-mismatch-" \o x[2], x[3], x[4]>> : x \in {y \in f : y[1] \in {"C02", "C03"} /\ y[3] \in {"", "unexplained"} /\ PtrAsym(r.s, r.t)}}
+
+\* C18: imports are exactly the owners of the types used; declarations are the converter struct and its methods only
+RECURSIVE UsesUser(_), UsesUnsafe(_)
+UsesUser(t_) ==
+  CASE t_.k = "named" -> TRUE
+    [] t_.k = "iface" -> t_.id \notin {"any", "error"}
+    [] t_.k \in {"ptr", "slice", "array"} -> UsesUser(t_.e)
+    [] t_.k = "map" -> UsesUser(t_.key) \/ UsesUser(t_.e)
+    [] t_.k = "struct" -> \E i \in DOMAIN t_.fs : UsesUser(t_.fs[i].t)
+    [] OTHER -> FALSE
+UsesUnsafe(t_) ==
+  CASE t_.k = "basic" -> t_.b = "unsafe.Pointer"
+    [] t_.k = "named" -> UsesUnsafe(t_.u)
+    [] t_.k \in {"ptr", "slice", "array"} -> UsesUnsafe(t_.e)
+    [] t_.k = "map" -> UsesUnsafe(t_.key) \/ UsesUnsafe(t_.e)
+    [] t_.k = "struct" -> \E i \in DOMAIN t_.fs : UsesUnsafe(t_.fs[i].t)
+    [] OTHER -> FALSE
+\* a named type's underlying type never appears in the output, only its name
+RECURSIVE SigUnsafe(_)
+SigUnsafe(t_) ==
+  CASE t_.k = "basic" -> t_.b = "unsafe.Pointer"
+    [] t_.k \in {"ptr", "slice", "array"} -> SigUnsafe(t_.e)
+    [] t_.k = "map" -> SigUnsafe(t_.key) \/ SigUnsafe(t_.e)
+    [] t_.k = "struct" -> \E i \in DOMAIN t_.fs : SigUnsafe(t_.fs[i].t)
+    [] OTHER -> FALSE
+ExpectedImports(r) == (IF UsesUser(r.s) \/ UsesUser(r.t) THEN {"user"} ELSE {}) \cup (IF SigUnsafe(r.s) \/ SigUnsafe(r.t) THEN {"unsafe"} ELSE {})
+Finger18(r) ==
+  IF r.gen # "ok" THEN {}
+  ELSE (IF Rng(r.imports) # ExpectedImports(r) THEN {<<"C18", "imports-differ-from-owners-of-used-types", "", r.id>>} ELSE {})
+       \cup (IF Rng(r.imports) \cap {"reflect"} # {} THEN {<<"C18", "imports-reflect", "", r.id>>} ELSE {})
+       \cup (IF \E i \in DOMAIN r.decls : r.decls[i] \notin {"struct", "method"} THEN {<<"C18", "extra-top-level-declaration", "", r.id>>} ELSE {})
+       \cup (IF Cardinality({i \in DOMAIN r.decls : r.decls[i] = "struct"}) # 1 THEN {<<"C18", "converter-struct-count", "", r.id>>} ELSE {})
+
 FingerGen(r) ==
   IF r.gen = "panic" THEN {<<"C13", "generator-panic", r.why, r.id>>}
   ELSE IF r.gen = "hang" THEN {<<"C13", "generator-hang", "", r.id>>}
@@ -53,7 +96,8 @@ FingerRace(r) ==
   (IF r.race THEN {<<"C04", "race", "", r.id>>} ELSE {})
   \cup (IF ~r.unchanged THEN {<<"C04", "source-changed", "concurrent", r.id>>} ELSE {})
 
-Finger(r) == IF ~r.exec THEN FingerGen(r) ELSE IF "racepass" \in DOMAIN r THEN FingerRace(r) ELSE FingerExec(r)
+Finger0(r) == IF ~r.exec THEN FingerGen(r) \cup Finger18(r) ELSE IF "racepass" \in DOMAIN r THEN FingerRace(r) ELSE FingerExec(r)
+Finger(r) == LET f == Finger0(r) IN f \cup AsC11(f, r)
 
 VARIABLES l, bad
 Init == l = 1 /\ bad = {}
